@@ -38,7 +38,18 @@ def run():
     for raw, enc in ((b"", ""), (b"f", "Zg"), (b"fo", "Zm8"), (b"foo", "Zm9v"), (b"foob", "Zm9vYg"),
                      (b"fooba", "Zm9vYmE"), (b"foobar", "Zm9vYmFy"), (b"\xfb\xff", "-_8")):
         assert b64.enc(raw) == enc and b64.dec(enc) == raw
+        assert b64.enc_table(raw) == enc and b64.dec_table(enc) == raw
         n += 1
+    for i in range(0, 70):
+        raw = bytes((i * 37 + j * 11) % 256 for j in range(i))
+        assert b64.enc(raw) == b64.enc_table(raw) and b64.dec(b64.enc(raw)) == raw == b64.dec_table(b64.enc(raw))
+    for bad in ("A", "AA=", "A+", "A/AA", "AAAA\n", " AAA", "AA\u00e9A"):
+        for f in (b64.dec, b64.dec_table):
+            try:
+                f(bad)
+                raise AssertionError("reference decoder accepted %r" % bad)
+            except ValueError:
+                pass
     # RFC 7515 A.1 HS256 (signing input and MAC are deterministic)
     a1_key = {"kty": "oct", "k": "AyM1SysPpbyDfgZld3umj1qzKObwVMkoqQ-EstJQLr_T-1qS0gZH75aKtMN3Yj0iPS4hcgUuTwjAzZr1Z9CAow"}
     a1 = ("eyJ0eXAiOiJKV1QiLA0KICJhbGciOiJIUzI1NiJ9.eyJpc3MiOiJqb2UiLA0KICJleHAiOjEzMDA4MTkzODAsDQogImh0dHA6Ly9leGFt"
